@@ -1015,8 +1015,8 @@ CORRUPT_VARIANTS = {
     "garbage": ["utf8", "binary", "empty"],
     "non-wamp": ["dict", "emptylist", "strtype", "unknowntype", "short-hello", "int", "booltype",
                  "floattype"],
-    "session-protocol-error": [""],
-    "session-exception": [""],
+    "session-protocol-error": ["", "long"],
+    "session-exception": ["", "long"],
     "real-out-of-phase": [""],
 }
 BASE_SEQ = ["published", "event", "call"]
@@ -1165,10 +1165,10 @@ def case_corrupt(acc, a):
         if tkind == "ws" and not b and not _is_utf8(bad):
             allowed_codes = {1002, 1007}
     elif ck == "session-protocol-error":
-        plan = {"raise": {pos: "protocol"}}
+        plan = {"raise": {pos: "protocol-long" if v == "long" else "protocol"}}
         delivered_exp = pos + 1
     elif ck == "session-exception":
-        plan = {"raise": {pos: "runtime"}}
+        plan = {"raise": {pos: "runtime-long" if v == "long" else "runtime"}}
         delivered_exp = pos + 1
         allowed_codes = {1011}
     else:
@@ -1206,6 +1206,21 @@ def case_corrupt(acc, a):
         if wcloses and len(wcloses[0]) >= 2:
             code = struct.unpack("!H", wcloses[0][:2])[0]
         closing = closing or (nclose > 0 and ep.proto.state != 3)
+        # what the endpoint wrote while failing must itself be well-formed: a close frame is a control
+        # frame (<= 125 payload octets: status + at most 123 octets of valid UTF-8)
+        malformed = list(errs[:1])
+        for pl in wcloses:
+            if len(pl) > 125 or len(pl) == 1:
+                malformed.append("close frame payload of %d octets" % len(pl))
+            else:
+                try:
+                    pl[2:].decode("utf8")
+                except UnicodeDecodeError:
+                    malformed.append("close reason is not valid UTF-8")
+        if malformed:
+            acc.bad("C13|close-frame-malformed|%s|%s" % ("websocket-%s|%s" % (role, acc.fw), ck),
+                    "%s %s corruption=%s/%s at position %d failByDrop=%s: %s" % (
+                        tkind, sid, ck, v, pos, fbd, malformed[0]), a)
         if nclose and not ep.closing():
             # the peer completes the closing handshake
             ep.feed(F.encode(8, wcloses[0][:2], mask=L.MASK if role == "server" else None))
